@@ -89,24 +89,35 @@ Proof.
 Qed.
 Print Assumptions C06_minmax_enforced_uniform.
 
-(* the full statement "min/max are enforced for every grid class" is FALSE of the faithful model:
-   a FunctionGrid with max = 1, N = 2, T = 8 emits no row at all, although both intervals have
-   length 4 > 1 (known finding F3c) *)
+(* FunctionGrid / DensityGrid (given normalised nodes, not localized), free horizon: the rows emitted
+   for interval k bound interval k (every interval is bounded; before the repair of F3c these
+   grid classes emitted no row at all) *)
+Theorem C06_minmax_enforced_nodes :
+  forall (F : Type) (OF : Ops F), FieldLaws OF ->
+  forall (le : F -> F -> Prop), (forall a b c, le a b -> le (a +! c) (b +! c)) ->
+  forall (go : grid_opts) (nodes : list Q) N (t0 T : F) Tl t0l,
+    go_spec go = GNodes nodes -> go_localize_T go = false ->
+    (go_min go <> None \/ go_max go <> None) ->
+    forall k, S k < length nodes ->
+    (forall r, In r (bounds_T go N true T Tl t0l k) -> le (rw_h r) o0) ->
+      let cg := time_grid (GNodes nodes) t0 T N in
+      let len := nth (S k) cg o0 -! nth k cg o0 in
+      le (qbound (go_min go) o0) len /\
+      match go_max go with Some mx => le len (of_Q mx) | None => True end.
+Proof.
+  intros F OF Fl le Hle go nodes N t0 T Tl t0l H1 H2 H3 k Hk H4.
+  exact (nodes_minmax_enforced Fl le Hle go nodes N t0 T Tl t0l H1 H2 H3 k Hk H4).
+Qed.
+Print Assumptions C06_minmax_enforced_nodes.
+
 Local Existing Instance QcOps.
 Definition qc (a : Z) (b : positive) : Qc := Q2Qc (Qmake a b).
 Definition ex_go : grid_opts := mkGridOpts (GNodes [0%Q; (1#2)%Q; 1%Q]) false false None (Some 1%Q).
-Theorem C06_minmax_refuted :
-  exists (go : grid_opts) (N : nat) (T : Qc),
-    go_max go = Some 1%Q /\
-    (forall k, k < N -> @bounds_T Qc QcOps go N true T [] [] k = []) /\
-    let cg := @time_grid Qc QcOps (go_spec go) (qc 0 1) T N in
-    Qclt (qc 1 1) (nth 1 cg (qc 0 1) - nth 0 cg (qc 0 1))%Qc.
-Proof.
-  exists ex_go, 2, (qc 8 1). split; [reflexivity|]. split.
-  - intros k Hk. destruct k as [|[|k]]; try reflexivity; lia.
-  - vm_compute. reflexivity.
-Qed.
-Print Assumptions C06_minmax_refuted.
+(* the example that refuted the property before the repair: max = 1, N = 2, T = 8 now yields the row
+   4 - 1 <= 0 for both intervals, i.e. the point is infeasible as it should be *)
+Example C06_nodes_example :
+  map (fun r => rw_h r) (@bounds_T Qc QcOps ex_go 2 true (qc 8 1) [] [] 0) = [qc (-4) 1; qc 3 1].
+Proof. vm_compute. reflexivity. Qed.
 
 (* non-vacuity of the order hypothesis (Qc) and of a free-grid instance *)
 Example C06_order_nonvacuous : forall a b c : Qc, (a <= b)%Qc -> (a + c <= b + c)%Qc.
